@@ -14,6 +14,7 @@ TOOLS := mtbl_dump mtbl_info mtbl_verify mtbl_merge
 ENGINES := table merge sorter fileset corrupt sched leak wfault
 ENGINE_SRC := $(foreach e,$(ENGINES),$(wildcard engines/$(e).cc))
 HAVE := $(foreach e,$(ENGINES),$(if $(wildcard engines/$(e).cc),-DHAVE_$(shell echo $(e) | tr a-z A-Z)))
+$(shell mkdir -p $(B); echo "$(HAVE)" | cmp -s - $(B)/have.flags || echo "$(HAVE)" > $(B)/have.flags)
 HARNESS_CC := engines/main.cc engines/common.cc engines/stubs.cc engines/tablelib.cc model/mtblfmt.cc $(ENGINE_SRC)
 
 FLAGS_asan := -O1 -g -fno-omit-frame-pointer -fsanitize=address,undefined -fno-sanitize=alignment -fno-sanitize-recover=undefined
@@ -41,7 +42,7 @@ define VARIANT_RULES
 $(B)/$(1)/repo/%.o: $(REPO)/%.c $(wildcard $(REPO)/mtbl/*.h) $(wildcard $(REPO)/libmy/*.h) sim/seams.h sim/seams/pthread.h sim/simsched.h
 	@mkdir -p $$(dir $$@)
 	$(CC) $$(FLAGS_$(1)) $(REPO_DEFS) $$(SEAM_$$*.c) -c $$< -o $$@
-$(B)/$(1)/h/%.o: %.cc engines/*.h model/*.h sim/*.h
+$(B)/$(1)/h/%.o: %.cc engines/*.h model/*.h sim/*.h $(B)/have.flags
 	@mkdir -p $$(dir $$@)
 	$(CXX) -std=c++17 $$(FLAGS_$(1)) -I$(REPO)/mtbl $(HAVE) -c $$< -o $$@
 $(B)/$(1)/h/trap.o: sim/trap.c sim/trap.h
